@@ -464,6 +464,9 @@ func typesSource(c *spec.Case) string {
 	var sb strings.Builder
 	sb.WriteString(typeDecls(c, ""))
 	sb.WriteString(compositeHelpers(c))
+	for _, a := range c.ExtraAliases {
+		fmt.Fprintf(&sb, "type %s = %s\n\n", a[0], a[1])
+	}
 	for i := range c.Provs {
 		if c.Provs[i].CtxAlias {
 			sb.WriteString("// Ctx is how some providers spell the context they take.\ntype Ctx = context.Context\n\n")
@@ -787,6 +790,9 @@ func elemExpr(c *spec.Case, e *spec.Elem) string {
 	case "prov":
 		return wrap(k + ".Provide(" + provRef(c, c.ProvByID(e.Prov)) + ")")
 	case "struct":
+		if e.StructAlias != "" {
+			return wrap(fmt.Sprintf("%s.Struct[%s]()", k, e.StructAlias))
+		}
 		return wrap(fmt.Sprintf("%s.Struct[%s]()", k, c.Expr(e.Struct, "")))
 	case "value":
 		if e.Literal {
